@@ -10,6 +10,7 @@ import (
 
 	"golang.org/x/tools/go/packages"
 
+	"verif/checker/internal/eval"
 	"verif/checker/internal/flow"
 	"verif/checker/internal/load"
 )
@@ -81,6 +82,9 @@ func init() {
 	mutant(&Mutant{Name: "c04-hsl-numbers-converted-unscaled", Property: "C04", File: "css/css.go",
 		Old: "} else if (fun == Hsl || fun == Hsla) && args[0].TokenType == css.NumberToken", New: "} else if fun == Hsl || fun == Hsla && args[0].TokenType == css.NumberToken",
 		Rule: "R04.15", Construct: "HSL2RGB#1 only for percentages"})
+	mutant(&Mutant{Name: "c04-import-url-quote-test-at-fixed-position", Property: "C04", File: "css/css.go",
+		Old: "if a <= b && (url[a] == '\"' || url[a] == '\\'') {", New: "if a <= b && (url[4] == '\"' || url[4] == '\\'') {",
+		Rule: "R04.16", Construct: "quote test#1 at the start of the content"})
 	mutant(&Mutant{Name: "c04-custom-property-collapsed", Property: "C04", File: "css/css.go",
 		Old: "\t\t\tvalue := parse.TrimWhitespace(c.p.Values()[0].Data)\n", New: "\t\t\tvalue := parse.TrimWhitespace(parse.ReplaceMultipleWhitespace(c.p.Values()[0].Data))\n",
 		Rule: "R04.4", Construct: "confined to comment text"})
@@ -200,6 +204,8 @@ func runC04(c *Ctx) {
 	c.r0410(pk)
 	c.r0411(pk)
 	c.r0415(pk)
+	c.r0416(pk)
+	c.r0417(pk)
 	// positions remembered while rewriting a value list (background layers) stay valid: same rule as R10.5, css only
 	c.alsoUnder(map[string]string{"R10.5": "R04.8"}, func(construct string) bool {
 		return strings.HasPrefix(construct, "css.") || strings.HasPrefix(construct, "floor/")
@@ -427,6 +433,9 @@ func runC09(c *Ctx) {
 	// … and a JSON string that is rewritten can end the script element it is embedded in (`<\/script>` → `</script>`)
 	c.alsoUnder(map[string]string{"R07.3": "R09.7", "R07.12": "R09.10", "R07.1": "R09.14"}, nil, func() { runC07own(c) })
 	c.r098()
+	// `]]>` in the character data of XML / SVG output is not well-formed
+	c.r069("R09.16", "xml")
+	c.r069("R09.17", "svg")
 }
 
 func runC09own(c *Ctx) {
@@ -1202,4 +1211,159 @@ func (c *Ctx) r0415(pk *packages.Package) {
 		c.R.Check(len(missing) == 0, rule, fmt.Sprintf("css.cssMinifier.minifyTokens/HSL2RGB#%d only for percentages", n), c.pos(a), "behind the percentage tests of saturation and lightness", "the conversion is reached without "+strings.Join(missing, " and ")+" being a percentage: numbers are handed to HSL2RGB unscaled (`hsl(0 50 50)` → #613c3c, the colour is #bf4040)")
 	}
 	c.R.Floor(rule, "HSL2RGB calls", n, 1)
+}
+
+// R04.16: the URL of an @import is taken over whole.
+func (c *Ctx) r0416(pk *packages.Package) {
+	const rule = "R04.16"
+	c.R.Rule(rule, "`@import url( \"x.css\" )` → `@import \"x.css\"`: the minifier takes the content out of the url( ) token of an @import rule, stripping blanks, and quotes it if it is not quoted yet. In cssMinifier.minifyGrammar, on the alias of values[1].Data in the Import branch: (a) a byte of the token is compared with a quote character only at an index that is a variable (the cursor that was moved over the blanks) — a constant index looks at the blank in `url( \"x\")` and wraps the quoted string in another pair of quotes (`\"\"x.css\"\"`); (b) the token is never resliced with a constant upper bound (`url[:2]` replaces the content by the empty string, which the old code did for every one-byte URL: `@import url(x)` → `@import \"\"`)")
+	info := pk.TypesInfo
+	fd := c.fn(rule, pk, "cssMinifier.minifyGrammar")
+	if fd == nil {
+		return
+	}
+	// the Import branch: the if whose condition mentions Import and values[1]
+	var branch *ast.IfStmt
+	ast.Inspect(fd.Body, func(x ast.Node) bool {
+		if ifs, ok := x.(*ast.IfStmt); ok && branch == nil {
+			cs := nospace(str(ifs.Cond))
+			if strings.Contains(cs, "==Import") && strings.Contains(cs, "values[1]") {
+				branch = ifs
+			}
+		}
+		return true
+	})
+	if branch == nil {
+		c.R.Unres(rule, "css.cssMinifier.minifyGrammar/@import branch", c.pos(fd), "no test of the at-rule against Import with values[1] found")
+		return
+	}
+	// alias of values[1].Data
+	var alias types.Object
+	ast.Inspect(branch.Body, func(x ast.Node) bool {
+		if as, ok := x.(*ast.AssignStmt); ok && as.Tok == token.DEFINE && len(as.Lhs) == 1 && len(as.Rhs) == 1 && nospace(str(as.Rhs[0])) == "values[1].Data" {
+			if id, ok := as.Lhs[0].(*ast.Ident); ok && alias == nil {
+				alias = info.Defs[id]
+			}
+		}
+		return true
+	})
+	if alias == nil {
+		c.R.Unres(rule, "css.cssMinifier.minifyGrammar/@import branch/alias of the URL token", c.pos(branch), "values[1].Data is not bound to a local")
+		return
+	}
+	isAlias := func(e ast.Expr) bool {
+		id, ok := ast.Unparen(e).(*ast.Ident)
+		return ok && info.Uses[id] == alias
+	}
+	nq, ns := 0, 0
+	ast.Inspect(branch.Body, func(x ast.Node) bool {
+		switch e := x.(type) {
+		case *ast.BinaryExpr:
+			if e.Op != token.EQL && e.Op != token.NEQ {
+				return true
+			}
+			for _, pr := range [][2]ast.Expr{{e.X, e.Y}, {e.Y, e.X}} {
+				ie, ok := ast.Unparen(pr[0]).(*ast.IndexExpr)
+				if !ok || !isAlias(ie.X) {
+					continue
+				}
+				tv, ok := info.Types[pr[1]]
+				if !ok || tv.Value == nil {
+					continue
+				}
+				if v := tv.Value.ExactString(); v != "34" && v != "39" {
+					continue
+				}
+				nq++
+				_, isConst := intConst(info, ie.Index)
+				c.R.Check(!isConst, rule, fmt.Sprintf("css.cssMinifier.minifyGrammar/@import: quote test#%d at the start of the content", nq), c.pos(e), "indexed by the cursor", "the test for a quoted URL looks at the fixed position "+str(ie.Index)+": with a blank after `url(` it sees the blank, takes the quoted string for an unquoted URL and adds quotes around the quotes (`@import url( \"x.css\")` → `@import \"\"x.css\"\"`)")
+			}
+		case *ast.SliceExpr:
+			if !isAlias(e.X) || e.High == nil {
+				return true
+			}
+			if _, isConst := intConst(info, e.High); isConst {
+				ns++
+				c.R.Bad(rule, fmt.Sprintf("css.cssMinifier.minifyGrammar/@import: URL token cut at a constant#%d", ns), c.pos(e), "the token is resliced to "+str(e)+": whatever the URL was, a fixed prefix is kept — the old code did that for a content of one byte (`@import url(x)` → `@import \"\"`)")
+			}
+		}
+		return true
+	})
+	c.R.Floor(rule, "quote tests on the URL token of @import", nq, 1)
+}
+
+// R04.17: a quoted font family that spells a keyword keeps its quotes.
+func (c *Ctx) r0417(pk *packages.Package) {
+	const rule = "R04.17"
+	c.R.Rule(rule, "CSS Fonts §3.1: `font-family: \"serif\"` names a font called serif, `font-family: serif` the generic family; likewise `\"inherit\"`, `\"initial\"`, `\"unset\"`, `\"default\"` — family names that equal a keyword must stay quoted. In cssMinifier.minifyProperty, case Font_Family, the assignment that replaces a string token's data by its unquoted content is dominated by the outcome of a test that can tell a keyword: a look-up in a package-level set that contains at least serif, sans-serif, monospace, cursive, fantasy, inherit and initial, or comparisons of a hash of the content with those names")
+	info := pk.TypesInfo
+	fd := c.fn(rule, pk, "cssMinifier.minifyProperty")
+	if fd == nil {
+		return
+	}
+	g := c.graph(pk, fd)
+	need := []string{"serif", "sans-serif", "monospace", "cursive", "fantasy", "inherit", "initial"}
+	n := 0
+	for _, y := range g.Nodes {
+		as, ok := y.Stmt.(*ast.AssignStmt)
+		if !ok || y.Kind != flow.KStmt || len(as.Lhs) != 1 || len(as.Rhs) != 1 {
+			continue
+		}
+		if !strings.HasSuffix(nospace(str(as.Lhs[0])), "].Data") {
+			continue
+		}
+		inFamily, unquoteFlag := false, false
+		keyword := false
+		for _, f := range g.DomFacts(y) {
+			switch f.Test.Kind {
+			case flow.KCase:
+				if f.Value && nospace(str(f.Test.Expr)) == "Font_Family" {
+					inFamily = true
+				}
+			case flow.KCond:
+				cs := nospace(str(f.Test.Expr))
+				if strings.Contains(cs, "css.StringToken") && f.Value {
+					unquoteFlag = true
+				}
+				// a test against a keyword set: an index into a package-level map whose keys cover the keywords
+				ast.Inspect(f.Test.Expr, func(z ast.Node) bool {
+					ie, ok := z.(*ast.IndexExpr)
+					if !ok {
+						return true
+					}
+					id, ok := ast.Unparen(ie.X).(*ast.Ident)
+					if !ok {
+						return true
+					}
+					if v, ok := info.Uses[id].(*types.Var); ok && v.Parent() == v.Pkg().Scope() {
+						val, _, err := c.Ev.PackageVar(pk, v.Name())
+						if m, ok := val.(*eval.Map); ok && err == nil {
+							have := map[string]bool{}
+							for _, e := range m.Entries {
+								if k, ok := e.Key.(string); ok {
+									have[strings.ToLower(k)] = true
+								}
+							}
+							all := true
+							for _, k := range need {
+								if !have[k] {
+									all = false
+								}
+							}
+							if all {
+								keyword = true
+							}
+						}
+					}
+					return true
+				})
+			}
+		}
+		if !inFamily || !unquoteFlag {
+			continue
+		}
+		n++
+		c.R.Check(keyword, rule, fmt.Sprintf("css.cssMinifier.minifyProperty/case Font_Family/quotes removed#%d not from a keyword", n), c.pos(as), "behind a look-up in a keyword set", "the quotes of a family name are removed whenever its words are identifiers: `font-family:\"serif\"` → `font-family:serif` selects the generic family instead of the font called serif, `\"inherit\"` becomes the CSS-wide keyword (the suite pins `\"Sans-Serif\"` → `sans-serif`)")
+	}
+	c.R.Floor(rule, "unquoting assignments in case Font_Family", n, 1)
 }
